@@ -894,6 +894,13 @@ func Run(r *common.Run) error {
 			if len(f) == 3 && f[0] == "C10" && f[1] == "wdl" {
 				c.wdlHist(strings.Split(f[2], ","))
 			}
+			if len(f) == 5 && f[0] == "C10" && f[1] == "fr" {
+				var ops []string
+				if f[4] != "-" {
+					ops = strings.Split(f[4], ",")
+				}
+				c.frHist(f[2] == "ws", f[3] == "recv", ops)
+			}
 			if len(f) == 4 && f[0] == "C10" && f[1] == "held" {
 				c.heldReader(f[2], f[3])
 			}
@@ -932,6 +939,7 @@ func Run(r *common.Run) error {
 	r.Mark("case close-blocked")
 	c.closeBlocked()
 	c.envCases()
+	c.framingCases()
 	r.Mark("case abandoned transmit calls")
 	for i, op := range abandonOps {
 		for k, kind := range abandonKinds {
